@@ -634,7 +634,7 @@ func (c *isoCase) buildClient(opt string) {
 			}
 		case "rs/static-front-shared":
 			inst.front = true
-			opts = append(opts, rs.WithStaticEndpoints(frontBase+"/oauth/token", frontBase+"/oauth/introspect"))
+			opts = append(opts, rs.WithStaticEndpoints(redirBase+"/oauth/token", redirBase+"/oauth/introspect"))
 			fallthrough
 		default:
 			build = func() (err error) {
@@ -745,13 +745,11 @@ func (c *isoCase) call(i *cliInst, api string) {
 	for _, a := range apis {
 		ok = ok || a == api
 	}
+	if i.cookies && (api == "code" || api == "verify") {
+		api = "browser"
+	}
 	if !ok || (api == "browser" && !i.cookies) {
 		api = apis[0]
-	}
-	if i.front && (api == "code" || api == "browser" || api == "device" || api == "refresh") {
-		// through the gateway the token endpoint URL differs from what the id_token/assertion audience expects only in
-		// host; these flows still work, but keep the front instances to the calls the statement names
-		api = map[string]string{"rp": "userinfo", "rs": "introspect"}[i.kind]
 	}
 	desc := fmt.Sprintf("call %s %s", i.name, api)
 	c.step(desc, i, nil, func() string {
@@ -791,6 +789,9 @@ func (c *isoCase) call(i *cliInst, api string) {
 			err = rpEndSession(i.rp, i.toks)
 			i.toks = nil
 		case "revoke":
+			if i.clientID == "c20pk" {
+				return "skipped" // rp.RevokeToken authenticates with client_secret only
+			}
 			if i.toks == nil || i.toks.access == "" {
 				i.toks = c.freshTokens(i.clientID)
 			}
@@ -1145,7 +1146,9 @@ func scenarioSpecs(run *ev.Run, idx int) []spec {
 			k = (k*3 + int(run.Seed)%3) % (nc * nc)
 		}
 		a, b := k/nc, k%nc
-		return []spec{{Kind: "cli", Cli: cliCatalogue[a]}, {Kind: "cli", Cli: cliCatalogue[b]}, {Kind: "call", Target: 1}, {Kind: "call", Target: 0}, {Kind: "call", Target: 1, API: "userinfo"}}
+		rot := []string{"code", "userinfo", "refresh", "clientcreds", "device", "browser", "verify", "revoke"}
+		return []spec{{Kind: "cli", Cli: cliCatalogue[a]}, {Kind: "cli", Cli: cliCatalogue[b]}, {Kind: "call", Target: 1}, {Kind: "call", Target: 0},
+			{Kind: "call", Target: 1, API: rot[idx%len(rot)]}, {Kind: "call", Target: 0, API: rot[(idx/3)%len(rot)]}}
 	case idx < pp+cp+pt: // ordered triple of provider option sets
 		k := idx - pp - cp
 		return []spec{prov(k / (np * np)), prov(k / np % np), prov(k % np)}
